@@ -160,6 +160,16 @@ def o_process_start(I, fn, n, args, st):
             for x in ("in", "out", "err"):
                 ends |= {a for a in (st.mem.get(("f", ("f", cell, "handle"), x)) or ()) if isinstance(a, tuple) and a[0] == "fd"}
     child.mon["child_ends"] = frozenset(ends)
+    # the forked child has closed every descriptor outside its keep list (the three handles and the exit handle): C11.X2.
+    # A number the parent still remembers in a pipe field therefore refers to nothing in the child - or, later, to a
+    # standard stream that was installed on it.
+    keep = set(ends)
+    if isinstance(args[2], tuple) and args[2][0] == "agg":
+        for cell in args[2][1]:
+            keep |= {a for a in (st.mem.get(("f", ("f", cell, "handle"), "exit")) or ()) if isinstance(a, tuple) and a[0] == "fd"}
+    for k, v in list(child.res.items()):
+        if k[0] == "fd" and v and v[0] == "open" and k not in keep:
+            child.res[k] = ("closed",) + tuple(v[1:])
     child.mon["proc"] = "child"
     child.mon["sigmask"] = fs(("sym", "EMPTY"))
     pid = ("pid", "process_start", 0)
